@@ -43,7 +43,7 @@ def _rmap(rng, hi):
             "vals": rng.choice(["mixed", "mixed", "pos", "neg", "const", "zero", "tiny", "huge", "pos_big", "neg_big"]),
             "nan": rng.choice(["none", "none", "scatter", "rows", "all", "edge"]),
             "mag": 10 ** rng.uniform(-2, 4),
-            "dtype": rng.choice(["f64", "f64", "f64", "f64", "f32"]),
+            "dtype": rng.choice(["f64", "f64", "f64", "f64", "f64", "f32", "f32", "i16", "i64"]),
             "layout": rng.choice(["c", "c", "c", "c", "c", "fortran", "transposed"])}
 
 
@@ -205,6 +205,9 @@ def build_map(np, spec, wvl, fmt):
         z[:] = np.nan
     if spec.get("dtype") == "f32":
         z = z.astype(np.float32)
+    elif spec.get("dtype") in ("i16", "i64") and not bool(np.any(np.isnan(z))) and vals not in ("tiny", "huge"):
+        # heights given as integers (nm): a legal array type for a map without dropouts
+        z = np.clip(np.rint(z), -30000, 30000).astype(np.int16 if spec["dtype"] == "i16" else np.int64)
     lay = spec.get("layout", "c")
     if lay == "fortran":
         z = np.asfortranarray(z)
